@@ -139,6 +139,7 @@ type world struct {
 	root    []byte
 	total   uint64
 	trie    *wmpt.WeightedMerkleTrie
+	only    []int // if set: the entries whose blocks the prover can prove
 }
 
 func buildWorld(rt *rapid.T, label string) *world {
@@ -180,13 +181,38 @@ func buildWorld(rt *rapid.T, label string) *world {
 	}
 	w := &world{entries: wmkit.Entries(m.Model), trie: m.T}
 	w.root, w.total = refwmpt.Root(w.entries)
+	if len(w.entries) > 0 && gen.Chance(rt, 15, label+"partial") {
+		// the prover is a partial trie: another object loaded from a path export for some of the keys; it proves the
+		// blocks of those keys (their siblings are collapsed references that carry their weights)
+		var req [][]byte
+		for i, e := range w.entries {
+			if gen.Chance(rt, 50, label+"req") || (len(w.only) == 0 && i == len(w.entries)-1) {
+				req = append(req, append([]byte(nil), e.Key...))
+				w.only = append(w.only, i)
+			}
+		}
+		_ = m.T.Root()
+		data, err := m.T.GetPath(req)
+		if err != nil {
+			rt.Fatalf("HARNESS: GetPath: %v", err)
+		}
+		part := wmpt.New(nil, nil)
+		if err := part.Deserialize(data); err != nil {
+			rt.Fatalf("HARNESS: Deserialize of an honest export: %v", err)
+		}
+		w.trie = part
+		ev.Class("proofs-from-a-partial-trie", 1)
+	}
 	return w
 }
 
 // drawBlock: uniform over 1..total, or (half of the time) the first or last block of a drawn key's interval.
 func (w *world) drawBlock(rt *rapid.T, label string) uint64 {
-	if gen.Chance(rt, 50, label+"edge") {
+	if w.only != nil || gen.Chance(rt, 50, label+"edge") {
 		i := gen.Uniform(rt, 0, len(w.entries)-1, label+"entry")
+		if w.only != nil {
+			i = gen.Pick(rt, w.only, label+"entryonly")
+		}
 		var cum uint64
 		for _, e := range w.entries[:i] {
 			cum += e.Weight
@@ -536,11 +562,14 @@ func TestProofsSoundAndComplete(t *testing.T) {
 		var other []*wmpt.PersistNodeBase
 		if gen.Chance(rt, 50, "othersame") {
 			ob := uint64(gen.Uniform(rt, 1, int(w.total), "otherblock"))
+			if w.only != nil {
+				ob = w.drawBlock(rt, "otherblockpartial")
+			}
 			_, other, _ = decodeProof(w.honest(rt, ob))
 		} else {
 			w2 := buildWorld(rt, "x")
 			if w2.total > 0 {
-				_, other, _ = decodeProof(w2.honest(rt, uint64(gen.Uniform(rt, 1, int(w2.total), "xblock"))))
+				_, other, _ = decodeProof(w2.honest(rt, w2.drawBlock(rt, "xblock")))
 			}
 		}
 		var applied []string
